@@ -637,6 +637,17 @@ SELFTEST_HISTORY = [
 ]
 
 
+SELFTEST_E2E = [
+    {"t": "seed", "peer": "p1", "consumer": "c1", "gw": False,
+     "rows": {"nodes": [{"peer": "", "node": "n1", "addr": "10.0.0.9"}], "svcs": [{"peer": "", "node": "n1", "id": "w1", "name": "web", "ver": "9"}], "chks": []},
+     "xrows": [{"t": "xreg", "peer": "p1", "consumer": "c1", "node": "n1", "addr": "10.0.0.1", "id": "w1", "name": "web", "cid": "w1c", "ver": "1", "st": "passing", "nst": "none"},
+               {"t": "xreg", "peer": "p1", "consumer": "c1", "node": "n1", "addr": "10.0.0.1", "id": "a1", "name": "api", "cid": "a1c", "ver": "1", "st": "passing", "nst": "none"}]},
+    {"t": "xcfg", "peer": "p1", "consumer": "c1", "cfg": [{"name": "web", "peers": ["c1"]}]},
+    {"t": "xcfg", "peer": "p1", "consumer": "c1", "cfg": [{"name": "api", "peers": ["c1", "c2"]}, {"name": "web", "peers": ["c2"]}]},
+    {"t": "xreg", "peer": "p1", "consumer": "c1", "node": "n1", "addr": "10.0.0.1", "id": "w1", "name": "web", "cid": "w1c", "ver": "2", "st": "critical", "nst": "none"},
+]
+
+
 def selftest():
     """binding demonstration: (i) corrupt recorded fields of a good trace, (ii) perturb the real calls
     through the harness shim; TLC must reject each, and accept the unperturbed run."""
@@ -669,6 +680,26 @@ def selftest():
         corrupt("query-disagrees", lambda rs: rs[1]["csn"].pop(), ["QueryAgrees"])
         corrupt("list-keeps-unexported", lambda rs: (rs[3]["post"].update(json.loads(json.dumps(rs[2]["post"])))), ["ListPrunes"])
         corrupt("export-to-non-consumer", lambda rs: rs[4]["res"]["services"].append("web"), ["ExportOnlyIfConsumer"])
+        # end to end: a good run, then (i) the swapped-out service re-appears on the importer, (ii) an exported instance is missing
+        erows, erej = _run_history(binary, work, SELFTEST_E2E)
+        out["e2e-clean"] = erej
+        ok &= erej == []
+
+        def corrupt_e2e(name, fn, expect):
+            nonlocal ok
+            rs = json.loads(json.dumps(erows))
+            fn(rs)
+            tp = os.path.join(work, "ce.ndjson")
+            vf.write_ndjson(tp, rs)
+            r = vf.tlc_validate("PeeringTrace", "PeeringTrace.cfg", tp, nevents=len(rs))
+            got = sorted({n for _, ns in r.rejects for n in ns})
+            out[name] = got
+            if not set(expect) <= set(got):
+                ok = False
+                print("selftest %s: expected %s, TLC said %s" % (name, expect, got))
+        corrupt_e2e("e2e-unexported-service-reappears", lambda rs: rs[3]["post"].update(json.loads(json.dumps(rs[1]["post"]))), ["E2EOnlyExported"])
+        corrupt_e2e("e2e-exported-instance-missing", lambda rs: rs[2]["post"]["svcs"].remove(next(x for x in rs[2]["post"]["svcs"] if x["peer"] == "p1")), ["E2EMirror"])
+        corrupt_e2e("e2e-health-not-updated", lambda rs: next(c for c in rs[1]["post"]["chks"] if c["peer"] == "p1").update(st="critical"), ["E2EMirror"])
         for fault, expect in (("dropdereg", "MirrorInstances"), ("touchlocal", "NILocal"), ("overexport", "ExportOnlyIfConsumer")):
             _, rejects = _run_history(binary, work, SELFTEST_HISTORY, fault=fault)
             got = sorted({n for _, ns in rejects for n in ns})
